@@ -338,18 +338,36 @@ def run_case(mp, rec, spec):
     rec.sample({'fam': fam, 'p': p, 'plan': len(plan), 'history': len(Bvals), 'boundaries': None if bounds is None else len(bounds)})
 
 
+CASE_CPU_CAP = 90.0      # seconds of CPU time (ITIMER_VIRTUAL: independent of the machine load); a normal case needs < 10 s
+
+
+class _CpuCap(BaseException):
+    pass
+
+
+def _on_cap(sig, frm):
+    raise _CpuCap()
+
+
 def run_shard(shard, rec):
+    import signal
     mp = _mp()
     r = G.rng(PROP, shard['seed'], shard['shard'])
     from vf.instrument import AnchorCount
     k = shard['shard']
+    signal.signal(signal.SIGVTALRM, _on_cap)
     with AnchorCount(rec, ['mpmath.calculus.odes:ode_taylor', 'mpmath.calculus.odes:odefun']):
         for i in range(shard['n']):
             spec = gen_case(r, i * NSHARDS + k, shard['tier'])
             mp.prec = 53
+            signal.setitimer(signal.ITIMER_VIRTUAL, CASE_CPU_CAP)
             try:
                 run_case(mp, rec, spec)
+            except _CpuCap:
+                rec.case(('capped', spec['fam'], spec['p'], spec['hseed']), False, cls='%s/cpu-cap' % spec['fam'])
+                rec.undecided('case exceeded the CPU cap of %d s (no verdict; a normal case needs < 10 s)' % CASE_CPU_CAP, spec)
             finally:
+                signal.setitimer(signal.ITIMER_VIRTUAL, 0)
                 mp.prec = 53
 
 
